@@ -31,6 +31,7 @@ THEOREMS = [
     "options_reattached", "options_reattached_partial", "reattach_schema_import_refuted",
     "wrapped_follows_options", "wrapped_follows_options_partial", "wrapped_stale_refuted",
     "toy_format_ok",
+    "interleaved_gets_safe", "interleaving_needs_format_refuted", "mixture_rejecting_format_exists",
 ]
 
 PRE = "From SV Require Import Lib.Base C11.Model."
